@@ -5,7 +5,7 @@ import ast
 from typing import Any, Callable, Optional, Tuple
 
 from .env import Env, compile_fn, execute
-from .kernel import Chooser, DfsStats, dfs_answers, guarded
+from .kernel import Chooser, DfsStats, StopExploration, dfs_answers, guarded
 from .sweep import exc_fingerprint
 
 
@@ -77,9 +77,11 @@ def compare_functions(f1: Callable, env1: Env, f2: Callable, env2: Env, horizon:
             # both must agree up to the cut
             if obs2[1] != ("cut",) or obs2[0] != obs[0]:
                 on_diff(tuple(ch.choices), obs, obs2)
+                raise StopExploration()     # one witness per program; a diverging program can be very slow to run
             return
         if obs2 != obs:
             on_diff(tuple(ch.choices), obs, obs2)
+            raise StopExploration()
 
     st = DfsStats()
     st2 = dfs_answers(run, on_run, bound_deviations=bound, horizon=horizon)
